@@ -26,3 +26,12 @@ m("load.order", "src/polyseed.c", "    /* checksum */\n    if (!gf_poly_check(&p
 m("cmp.str_no_nul", "src/lang.c", "        if (*key == '\\0' || *key != *elm) {\n            break;\n        }\n        ++key;\n        ++elm;\n    }\n    return (*key > *elm) - (*key < *elm);\n}\n\nstatic int compare_str_wrap",
   "        if (*key != *elm) {\n            break;\n        }\n        ++key;\n        ++elm;\n    }\n    return (*key > *elm) - (*key < *elm);\n}\n\nstatic int compare_str_wrap", ["U.cmp.str"])
 m("cmp.prefix3", "src/lang.c", "#define NUM_CHARS_PREFIX 4", "#define NUM_CHARS_PREFIX 3", ["B.cmp.prefix"])
+
+m("enc.coin_c0", "src/polyseed.c", "    /* apply coin */\n    poly.coeff[POLY_NUM_CHECK_DIGITS] ^= coin;\n\n    polyseed_str str_tmp;", "    /* apply coin */\n    poly.coeff[0] ^= coin;\n\n    polyseed_str str_tmp;", ["U.api.encode"])
+m("enc.no_wipe_str", "src/polyseed.c", "    MEMZERO_LOC(poly);\n    MEMZERO_LOC(str_tmp);\n\n    return str_size;", "    MEMZERO_LOC(poly);\n\n    return str_size;", ["U.api.encode"])
+m("enc.len_off", "src/polyseed.c", "        memcpy(str_out, str_tmp, str_size + 1);", "        memcpy(str_out, str_tmp, str_size);", ["U.api.encode"])
+m("dec.coin_c0", "src/polyseed.c", "    /* finalize polynomial */\n    poly.coeff[POLY_NUM_CHECK_DIGITS] ^= coin;\n\n    /* checksum */\n    if (!gf_poly_check(&poly)) {\n        res = POLYSEED_ERR_CHECKSUM;\n        goto cleanup;\n    }\n\n    /* alocate memory */\n    seed = ALLOC(sizeof(polyseed_data));\n\n    if (seed == NULL) {\n        res = POLYSEED_ERR_MEMORY;\n        goto cleanup;\n    }\n\n    /* decode polynomial into seed data */\n    polyseed_poly_to_data(&poly, seed);\n\n    /* check features */\n    if (!polyseed_features_supported(seed->features)) {\n        polyseed_free(seed);\n        res = POLYSEED_ERR_UNSUPPORTED;\n        goto cleanup;\n    }\n\n    *seed_out = seed;\n    res = POLYSEED_OK;\n\ncleanup:\n    MEMZERO_LOC(str_tmp);\n    MEMZERO_LOC(words);\n    MEMZERO_LOC(poly);\n    return res;\n}\n\npolyseed_status polyseed_decode_explicit",
+  "    /* finalize polynomial */\n    poly.coeff[POLY_NUM_CHECK_DIGITS] ^= (coin & 1023);\n\n    /* checksum */\n    if (!gf_poly_check(&poly)) {\n        res = POLYSEED_ERR_CHECKSUM;\n        goto cleanup;\n    }\n\n    /* alocate memory */\n    seed = ALLOC(sizeof(polyseed_data));\n\n    if (seed == NULL) {\n        res = POLYSEED_ERR_MEMORY;\n        goto cleanup;\n    }\n\n    /* decode polynomial into seed data */\n    polyseed_poly_to_data(&poly, seed);\n\n    /* check features */\n    if (!polyseed_features_supported(seed->features)) {\n        polyseed_free(seed);\n        res = POLYSEED_ERR_UNSUPPORTED;\n        goto cleanup;\n    }\n\n    *seed_out = seed;\n    res = POLYSEED_OK;\n\ncleanup:\n    MEMZERO_LOC(str_tmp);\n    MEMZERO_LOC(words);\n    MEMZERO_LOC(poly);\n    return res;\n}\n\npolyseed_status polyseed_decode_explicit", ["U.api.decode"])
+m("crypt.no_checksum", "src/polyseed.c", "    /* calculate new checksum */\n    gf_poly_encode(&poly);\n\n    seed->checksum = poly.coeff[0];\n\n    MEMZERO_LOC(poly);\n    MEMZERO_LOC(mask);", "    MEMZERO_LOC(poly);\n    MEMZERO_LOC(mask);", ["U.api.crypt"])
+m("free.no_wipe", "src/polyseed.c", "        MEMZERO_PTR(seed, polyseed_data);\n        FREE(seed);", "        FREE(seed);", ["U.api.free"])
+m("pd.first_match", "src/lang.c", "            MEMZERO_LOC(idx);\n            return POLYSEED_ERR_MULT_LANG;", "            break;", ["U.lang.phrase_decode"])
